@@ -26,6 +26,42 @@ def extra_runs(ctx, n):
     return runs
 
 
+def cli_stats_case(ctx):
+    """the command-line entry point writes <output>.stats next to the CSV: it must agree with the rows of that CSV"""
+    import csv
+    import json
+    import os
+    import shutil
+    import tempfile
+
+    import pandas as pd
+
+    from synrbl.SynCmd.cmd_run import impute
+
+    tmp = tempfile.mkdtemp(prefix="synrbl_c18_")
+    try:
+        rows = ["C>>C", "CCO>>CC=O", "xx>>C", "CC(=O)OCC>>CC(=O)O", "CC(=O)C>>CC(O)C", "CCCl>>CC"]
+        src, dst = os.path.join(tmp, "in.csv"), os.path.join(tmp, "out.csv")
+        with open(src, "w", newline="") as f:
+            w = csv.writer(f)
+            w.writerow(["reaction"])
+            for x in rows:
+                w.writerow([x])
+        impute(src, dst, "reaction", [], 0, n_jobs=2, batch_size=4)
+        st = json.load(open(dst + ".stats"))
+        df = pd.read_csv(dst, keep_default_na=False)
+        out = df.to_dict("records")
+        for r in out:
+            r["solved"] = str(r.get("solved")) == "True"
+            r["solved_by"] = r.get("solved_by") or None
+        statement(ctx, {"inputs": rows, "out": out, "stats": st, "batch_size": 4, "threshold": 0})
+        ctx.count("cli-stats-file-checked")
+    except Exception as e:
+        ctx.violation("cli-stats-run-failed", "impute()", "%s: %s" % (type(e).__name__, e), "synrbl/SynCmd/cmd_run.py:impute")
+    finally:
+        shutil.rmtree(tmp, ignore_errors=True)
+
+
 def search(ctx):
     for tr in extra_runs(ctx, 60):
         statement(ctx, tr)
@@ -53,5 +89,6 @@ def run(ctx):
             if t2["error"]:
                 ctx.corr_break("Pipeline:run-raised", t2["inputs"], "model never raises", t2["error"])
             statement(ctx, t2)
+        cli_stats_case(ctx)
         ctx.sample({"stats": tr["stats"], "rows": len(tr["out"] or [])})
     return ctx.finish(search)
